@@ -391,7 +391,12 @@ def main(tier, seed):
         years = [(y, ("strides" if (special(y) and y % 100 not in (1, 99))
                       or y in (1901, 1999, 2001, 2099, 2101)
                       else "deep") if special(y) else "conv")
-                 for y in range(1900, 10000)]
+                 for y in range(1900, 10000)
+                 # (conversions cost O(years): beyond 3000 the quick tier
+                 # keeps every 12th year, the years around every century and
+                 # the last decade; thorough keeps all)
+                 if y <= 3000 or y % 12 == 0 or y % 100 in (0, 1, 4, 99)
+                 or y >= 9990]
         sec_days = [FIRST, dn_ord(1970, 1, 1), dn_ord(2024, 2, 29),
                     dn_ord(9999, 12, 31)]
         seconds = list(range(0, 86400, 7)) + [86399, 43200, 1, 59, 3599]
@@ -429,7 +434,10 @@ def main(tier, seed):
               ("1900-01-01..2100-12-31" if tier == "quick"
                else "1900-01-01..9999-12-31") +
               " through to_oa_date/to_date (and 11 language forms incl. +-1 "
-              "day), the 6-7 boundary days of every year 1900..9999 with "
+              "day), the 6-7 boundary days of " + (
+                  "every year 1900..3000 and of about every 8th year up to "
+                  "9999" if tier == "quick" else "every year 1900..9999") +
+              " with "
               f"all strides +-{STRIDES}, and " +
               ("every 7th" if tier == "quick" else "every") +
               f" second of the day on {len(sec_days)} days, differences of "
